@@ -1208,10 +1208,13 @@ RV:
 		}
 	case reflect.Slice, reflect.Chan:
 		if rvIsNil(rv) {
-			if e.h.NilCollectionToZeroLength {
-				e.e.WriteArrayEmpty()
-			} else {
+			if !e.h.NilCollectionToZeroLength {
 				e.e.EncodeNil()
+			} else if uint8TypId == rt2id(rv.Type().Elem()) {
+				// kSlice, kChan and the builtin path write these as bytes: zero-length bytes, not array
+				e.e.writeNilBytes()
+			} else {
+				e.e.WriteArrayEmpty()
 			}
 			goto END
 		}
